@@ -59,6 +59,8 @@ var clientAuthNames = map[int64]string{0: "NoClientCert", 1: "RequestClientCert"
 
 func c19(c *Ctx) (*report.Result, error) {
 	res := newResult("C19")
+	res.RuleDoc["O19.11"] = "a connection handed out by a mux connection provider went through the TLS wrapper: in both NewConnection implementations (closures included) no return that can report success is reachable from a dial / accept without the call of the provider's tlsWrapper - a retry path that returns the raw TCP connection runs yamux in plaintext with a peer that showed no certificate"
+	checkConnWrappedOnEveryPath(c, res, "O19.11")
 	res.RuleDoc["O19.1"] = "server config: unless SkipCAVerification is set, the returned tls.Config has ClientAuth = RequireAndVerifyClientCert and ClientCAs = the pool of fetchCACert (its error is returned); nothing weakens it afterwards; GetConfigForClient never substitutes another config"
 	res.RuleDoc["O19.2"] = "client config: InsecureSkipVerify is only ever set from SkipCAVerification; on the verifying path ServerName = CAServerName and an empty name is an error; RootCAs is the pool of fetchCACert whenever RemoteCAPath is set (its error is returned)"
 	res.RuleDoc["O19.3"] = "CA bundle: fetchCACert returns a pool only after validateHasCA succeeded; plain http:// is refused"
